@@ -212,6 +212,7 @@ U_MutDel   == U_Chain({U_None, U_D(PrNone, "T", "N", "N", U_Md), U_D(PrNone, "F"
 U_MutNew   == U_Chain(U_DNew, U_DNew, U_DNewZ, {"dict", "list"}, {U_EMap, U_Map1(U_KA, U_I("1"))}, {U_I("1")})
 U_MutSafe  == U_Chain({U_None, U_D(PrNone, "N", "N", "F", U_Md)}, U_DSafe, U_DSafeZ, {"dict", "list"}, {U_I("1"), U_Call("vmod.rec", <<>>), U_EMap}, {U_I("1"), U_Call("vmod.rec", <<>>)})
 U_MutKinds == U_Dec({U_Map1(U_KA, x) : x \in U_Dec(U_KindLeaves \cup {U_Null, U_Apply(U_S("a\\b"), U_D(1, "N", "N", "N", {}))}, U_DKind)}, {U_None})
+U_MutKindsP == U_Dec({U_Map1(U_KA, x) : x \in U_KindLeaves}, {U_D(1, "N", "N", "N", {}), U_D(-1, "N", "N", "N", U_Md)})
 \* three-stage histories in the quick tier
 U_Q3 == U_MutDel \cup U_MutNew
 
